@@ -667,6 +667,10 @@ class GameCoordinator:
             if self.shutdown_flag.is_set():
                 self.logger.debug("\tExiting reward assignment task.")
                 break
+            if not all(self._episode_ends.values()):
+                # an agent joined after the event was set - wait until it finishes its episode too
+                self._episode_end_event.clear()
+                continue
             self.logger.info("Episode finished. Assigning final rewards to agents.")
             async with self._agents_lock:
                 attackers = [a for a,(_, a_role) in self.agents.items() if a_role.lower() == "attacker"]
